@@ -31,9 +31,14 @@ def main():
         meta = json.load(open(os.path.join(d, "meta.json")))
         props = meta.get("properties") or [meta["property"]]
         expect = meta.get("expect", "violation")
+        # evidence files describe runs on the unchanged tree: keep them out of mutant runs
+        import shutil, tempfile
+        ev_backup = tempfile.mkdtemp(prefix="evbak_")
+        for f in os.listdir(os.path.join(VERIF, "evidence")):
+            shutil.copy(os.path.join(VERIF, "evidence", f), ev_backup)
         r = sh(["git", "-C", REPO, "apply", os.path.join(d, "patch.diff")])
         if r.returncode != 0:
-            rows.append((sid, "-", "PATCH DOES NOT APPLY", 0)); continue
+            rows.append((sid, "-", "PATCH DOES NOT APPLY", 0)); shutil.rmtree(ev_backup, ignore_errors=True); continue
         try:
             for p in props:
                 t = time.time()
@@ -48,6 +53,9 @@ def main():
                              round(time.time() - t, 1), (viol[0] if viol else "")))
         finally:
             sh(["git", "-C", REPO, "checkout", "--", "."])
+            for f in os.listdir(ev_backup):
+                shutil.copy(os.path.join(ev_backup, f), os.path.join(VERIF, "evidence", f))
+            shutil.rmtree(ev_backup, ignore_errors=True)
     bad = 0
     for row in rows:
         print("%-28s %-4s %-60s %6ss %s" % (row[0], row[1], row[2][:60], row[3], row[4] if len(row) > 4 else ""))
